@@ -379,11 +379,19 @@ def oracle_flatten(impl):
             got = v.flatten()
         if got.shape != want.shape or not np.array_equal(got, want):
             return ("flatten-not-rowmajor", "vector #%d: flatten() is not the row-major concatenation of its cells" % n)
+        if any(np.shares_memory(got, c) for c in cells):
+            return ("flatten-aliases-cell", "vector #%d: flatten() returns an array sharing memory with a cell" % n)
         for k, f in enumerate(v._fields):
             got = np.asarray(v[f].flatten())
             w = want[:, k] if cells else np.empty((0,))
             if got.shape != w.shape or not np.array_equal(got, w):
                 return ("field-flatten-not-rowmajor", "vector #%d field %s: flatten() is not the concatenated column" % (n, f))
+            if any(np.shares_memory(got, c) for c in cells):
+                # a saved flatten() result that is a window into a cell changes with the field, so writing it
+                # back later does not restore the data it was taken from (and it is shared mutable state)
+                return ("field-flatten-aliases-cell", "vector #%d field %s: flatten() returns an array sharing memory with a "
+                        "cell (%d populated cell(s)): a later field change alters the saved values, writing them back "
+                        "cannot restore the data" % (n, f, len(cells)))
             before = [c.copy() for c in cells]
             v[f].set_flattened(got)
             if any(not np.array_equal(a, b) for a, b in zip(before, cells)):
